@@ -19,6 +19,7 @@ func init() {
 			"its root view and all its prefixed views, in lock-step with a plain sorted map of root-level keys; every result is compared with the model and after every step the complete contents of both " +
 			"underlying stores are compared with the model (so a prefixed operation that touches a parent key outside its prefix shows). Op-kind weights are re-drawn per run (swarm). " +
 			"Concurrent mode (run%5==2): one writer task writes 2-12 batches of 2-6 operations to a MemDB directly or through 1-2 PrefixDB layers while 1-3 reader tasks take snapshots (complete forward/reverse iterations) and point reads; the scheduler may preempt at operation boundaries and between two operations of memDBBatch.Write wherever nobody holds the MemDB lock; every snapshot must equal the contents after a whole number of batches between those complete at its start and those started at its end, every point read the value of one of those states; keys outside the prefix stay untouched. " +
+			"Blocked-reader mode (run%10==4): the same batch programs, but at the first yield offer inside every batch write a REAL reader goroutine is started and the writer waits until that goroutine is blocked in sync.RWMutex.RLock (goroutine stack inspection) or has returned; then the lock, not timing, decides who runs: the reader's snapshot must be the contents before or after the batch (a lock released between two operations without any yield point in the gap admits the queued reader: torn batch). One run in six of both concurrent modes has a batch of 1 100-5 000 operations. " +
 			"distinct = distinct plan digest; non-trivial = at least one iterator comparison on a view holding >= 2 keys and at least one successful write through a prefixed view",
 		Assumptions: []string{
 			"the specification is a plain sorted map of root-level keys; a view with prefix P shows the keys P+k (k non-empty) as k",
@@ -37,12 +38,19 @@ func init() {
 			if run%5 == 2 {
 				return drvdb.GenConcurrent(sim.Sub(seed, "C18-concurrent", run), tier)
 			}
+			if run%10 == 4 {
+				return drvdb.GenBlockedReader(sim.Sub(seed, "C18-blocked", run), tier)
+			}
 			return drvdb.Gen(sim.Sub(seed, "C18", run), tier)
 		},
 		Exec: func(p *drv.Plan) *Out {
 			if p.Mode == drvdb.ModeConcurrent {
 				r := drvdb.ExecConcurrent(p)
 				return &Out{Violations: r.Violations, Evals: 1, NonTrivial: r.NonTrivial, Probes: r.Probes, Stats: r.Stats, Trace: r.Trace, Sample: r.Sample, Schedule: r.Schedule, Tainted: r.Tainted, States: r.States}
+			}
+			if p.Mode == drvdb.ModeBlockedReader {
+				r := drvdb.ExecBlockedReader(p)
+				return &Out{Violations: r.Violations, Evals: 1, NonTrivial: r.NonTrivial, Probes: r.Probes, Stats: r.Stats, Trace: r.Trace, Sample: r.Sample, Tainted: r.Tainted}
 			}
 			r := drvdb.Exec(p)
 			return &Out{Violations: r.Violations, Evals: 1, NonTrivial: r.NonTrivial, Probes: r.Probes, Stats: r.Stats, Trace: r.Trace, Sample: r.Sample}
